@@ -486,11 +486,13 @@ reg_range_touches(RegisterEntry *e, RegisterAddress addr, RegisterOffset n)
      * it is above the range */
     const RegisterOffset size = rds_size[e->type];
 
-    if ((e->address + size) <= addr) {
+    /* Compare distances, not end addresses: the end of an entry or of a range
+     * that reaches the last address is not representable (it wraps to 0). */
+    if (addr >= e->address && (addr - e->address) >= size) {
         return -1;
     }
 
-    if ((addr + n) <= e->address) {
+    if (e->address >= addr && (e->address - addr) >= n) {
         return 1;
     }
 
@@ -590,7 +592,9 @@ ra_addr_is_part_of(RegisterArea *a, RegisterAddress addr)
     if (a->base > addr) {
         return false;
     }
-    if ((a->base + a->size) <= addr) {
+    /* The end address of an area that reaches the last address is not
+     * representable (it wraps to 0); compare the offset into the area. */
+    if ((addr - a->base) >= a->size) {
         return false;
     }
     return true;
@@ -605,9 +609,9 @@ ra_reg_is_part_of(RegisterArea *a, RegisterEntry *e)
 static bool
 ra_reg_fits_into(RegisterArea *a, RegisterEntry *e)
 {
-    const RegisterAddress area_end = a->base + a->size;
-    const RegisterAddress entry_end = e->address + rds_size[e->type];
-    return (entry_end <= area_end);
+    /* The entry's address is known to be part of the area. */
+    const RegisterOffset room = a->size - (e->address - a->base);
+    return (rds_size[e->type] <= room);
 }
 
 static AreaHandle
@@ -652,10 +656,10 @@ ra_range_touches(RegisterArea *a, RegisterAddress addr, RegisterOffset n)
 {
     /* Return -1 if area is below range; 0 if it is within the range and 1 if
      * it is above the range */
-    if ((a->base + a->size) <= addr) {
+    if (addr >= a->base && (addr - a->base) >= a->size) {
         return -1;
     }
-    if ((addr + n) <= a->base) {
+    if (a->base >= addr && (a->base - addr) >= n) {
         return 1;
     }
     return 0;
@@ -943,7 +947,7 @@ register_init(RegisterTable *t) /* NOLINT */
             BIT_CLEAR(t->flags, REG_TF_DURING_INIT);
             return rv;
         }
-        if (current < (previous + t->area[i-1].size)) {
+        if ((current - previous) < t->area[i-1].size) {
             rv.code = REG_INIT_AREA_ADDRESS_OVERLAP;
             rv.pos.area = i;
             BIT_CLEAR(t->flags, REG_TF_DURING_INIT);
@@ -961,7 +965,7 @@ register_init(RegisterTable *t) /* NOLINT */
             BIT_CLEAR(t->flags, REG_TF_DURING_INIT);
             return rv;
         }
-        if (current < (previous+rds_size[t->entry[i-1].type])) {
+        if ((current - previous) < rds_size[t->entry[i-1].type]) {
             rv.code = REG_INIT_ENTRY_ADDRESS_OVERLAP;
             rv.pos.entry = i;
             BIT_CLEAR(t->flags, REG_TF_DURING_INIT);
